@@ -184,6 +184,14 @@ def make_case(rng, cid, T, depth, fmt, dtag, run="serial", pleaf=None, stale_p=0
         for par in pars[1:]:
             for k in kids(par):
                 leaves[k] = _leaf_matrix(rng, T, mode, dtag, values, rng.choice(["rand", "rand", "one", "row"]))
+    if shape == "empty-start" and depth >= 1:
+        # nothing is stored at the start level (no leaf given, or only entirely undefined leaves that toasty does not store):
+        # the cascade must refuse; the stale parent files must survive untouched
+        keepu = False
+        leaves = {}
+        if can_u and rng.random() < 0.5:
+            for l in rng.sample(all_leaves, 2):
+                leaves[l] = _leaf_matrix(rng, T, mode, dtag, values, "allu")
     if shape == "int-low" and depth >= 1:
         # integer data has no undefined value: a parent over a lone all-zero leaf, a parent over a lone leaf with a single
         # count of 1 (its merge is zero everywhere), and ordinary leaves elsewhere - all these parents must exist
@@ -232,6 +240,8 @@ def make_case(rng, cid, T, depth, fmt, dtag, run="serial", pleaf=None, stale_p=0
     stale = set()
     if shape == "all-undefined-parent" or rng.random() < stale_p:
         stale = set(p for p in eligible if rng.random() < (1.0 if shape == "all-undefined-parent" else 0.6))
+    if shape == "empty-start" and not stale:
+        stale = set(rng.sample(sorted(eligible), min(2, len(eligible))))
     if mode == "Float":
         sv = (rng.choice([5000, -5000, 4]),)          # mostly beyond the leaves' range: a stale range that survives shows at the root
     elif mode == "Int":
@@ -267,7 +277,7 @@ def tla_case(c):
 
 
 INVARIANTS = ["CaseOK", "InDomain", "DoneRight", "RestUntouched", "ExistenceRule", "ExistsIffDataBelow", "StaleReplaced",
-              "NeverStoredUndefined", "RangeRule", "LeafRangeRule", "NoRangeUnlessRanged", "Progress", "SerialAdmitted",
+              "NeverStoredUndefined", "RangeRule", "LeafRangeRule", "NoRangeUnlessRanged", "RefusedLeavesDirectoryAlone", "Progress", "SerialAdmitted",
               "MergeCommutes"]
 
 
@@ -468,6 +478,18 @@ def _alarm(_sig, _frm):
     raise _Timeout()
 
 
+def _snapshot(base):
+    """Every file under the pyramid directory with a digest of its bytes."""
+    import hashlib
+    snap = {}
+    for d, _dirs, files in os.walk(base):
+        for fn in files:
+            path = os.path.join(d, fn)
+            with open(path, "rb") as f:
+                snap[os.path.relpath(path, base)] = hashlib.sha1(f.read()).hexdigest()
+    return snap
+
+
 def _second_pass(rec):
     """`twice` runs: the leaves written only before the SECOND cascade - those in rows that hold no leaf of the first pass."""
     given = rec["given"]
@@ -610,7 +632,8 @@ def replay_case(job):
             late = _second_pass(rec)
             pio = _populate(base, meta, rec, skip=late)
             try:
-                _run_cascade(pio, base, meta, rec, "serial")
+                if any(p[0] == depth for p in scan_tiles(base, fmt)[0]):       # (an empty start level would be refused)
+                    _run_cascade(pio, base, meta, rec, "serial")
             except _Timeout:
                 raise
             except BaseException as e:  # noqa
@@ -628,12 +651,34 @@ def replay_case(job):
                 % (sorted(set(start) ^ want_start), "a different set"))
             return out, {"tiles": 0}
         twin = None
-        if runkind == "parallel":
+        if runkind == "parallel" and not rec.get("refused"):
             shutil.copytree(root, root + "-serial")
             twin = os.path.join(root + "-serial", meta.get("dirname", "tiles"))
         if not meta["run"].startswith("twice-"):
             # the leaves were written through an explicit handle; the cascade gets its own, as the case spells it
             pio, spelled, explicit = _handle(base, root, meta)
+        if rec.get("refused"):
+            # the start level holds no stored tile: the cascade must refuse (raise) and leave the directory - stale parent
+            # files included - exactly as it found it, through every route
+            before = _snapshot(base)
+            raised = None
+            try:
+                _run_cascade(pio, base, meta, rec, run, spelled, explicit)
+            except _Timeout:
+                raise
+            except BaseException as e:  # noqa
+                raised = e
+            ok_exc = isinstance(raised, ValueError) or (isinstance(raised, SystemExit) and raised.code not in (0, None))
+            if raised is None:
+                add("C02", "V", "refusal:%s" % runkind, "the start level holds no tile, yet the cascade ran instead of refusing")
+            elif not ok_exc:
+                add("C02", "V", "raised:%s" % runkind, "the cascade from an empty start level raised %r instead of refusing with a ValueError" % (raised,))
+            after = _snapshot(base)
+            if after != before:
+                gone, new = sorted(set(before) - set(after)), sorted(set(after) - set(before))
+                add("C02", "V", "refusal:%s" % runkind, "the refused cascade changed the directory: removed %s, created %s, rewrote %s"
+                    % (gone[:6], new[:6], sorted(k for k in set(before) & set(after) if before[k] != after[k])[:6]))
+            return out, {"tiles": 0}
         try:
             obs = _run_cascade(pio, base, meta, rec, run, spelled, explicit)
         except _Timeout:
@@ -763,9 +808,6 @@ def report(ctx, prop, jobs, results):
             elif p != prop:
                 continue
             elif sev == "V":
-                if meta.get("dirname") in DIR_NAMES_GLOB and meta.get("fmt_route") == "guessed":
-                    key += ":guessed-format-in-glob-named-directory"
-                    msg += " [directory %r, format guessed from its content]" % meta["dirname"]
                 ctx.violation("%s:%s:%s" % (prop, key, meta["fmt"]), msg, {"meta": _plain(meta), "given": rec["given"], "init_stale": [t["pos"] for t in rec["init"] if t["pos"][0] < meta["depth"]]})
             else:
                 ctx.drift("%s %s" % (key, msg))
@@ -856,6 +898,10 @@ def build_cases(ctx, T, depth, plan, parallel_plan, mult=1, allow_keepu=True, re
         if can_u and depth >= 2:
             new(fmt, dtag, shape="full-then-four-partial", run="serial", stale_p=0.3, pleaf=0.2)
             new(fmt, dtag, shape="full-then-four-partial", run="cli", stale_p=0.0, pleaf=0.0)
+        if (fmt, dtag) in (("fits", "f4"), ("npy", "u1"), ("png", "rgba")) and depth >= 1:
+            # an empty start level through every route: API, CLI entry point, filtered, Builder.cascade, 2 processes
+            for r_ in (["serial", "cli", "filter", "par2"] + (["builder"] if fmt == "fits" else []))[: 5 if depth >= 2 else 2]:
+                new(fmt, dtag, shape="empty-start", run=r_, stale_p=1.0)
         if CONFIGS[(fmt, dtag)] == "Int" and depth >= 1:
             new(fmt, dtag, shape="int-low", run="serial", stale_p=0.0)
         if (fmt, dtag) in (("npy", "f4"), ("fits", "f4"), ("png", "rgba"), ("npy", "u1"), ("fits", "i2")) and depth >= 1:
